@@ -116,3 +116,6 @@ Proof. exact tie_products. Qed.
 (* the availability filter reads version tokens with Algorithm.get_ssh_version as it reads now (T1c translation) *)
 Theorem c14_tie_get_ssh_version : forall v, get_ssh_version v = src_get_ssh_version v.
 Proof. exact tie_get_ssh_version. Qed.
+Theorem c14_tie_between : forall prod sver spatch vfrom vtill,
+  between prod sver spatch vfrom vtill = src_between_versions vfrom vtill (compare_version prod sver spatch vfrom) (compare_version prod sver spatch vtill).
+Proof. exact tie_between. Qed.
